@@ -32,7 +32,7 @@ claimed = {
    note="The enumerated axes are complete; timing inside each case is sampled (vhook delays). 'Connecting' is modelled as refused port (active) / no peer (passive).",
    technique="enumerated situation x API product with wire/peer/metric observers; conservation monitor under racing select/deselect; exhaustive cut-point segmentation"),
  "C08": dict(level=E,
-   text="1600 (quick) / 24k (thorough) peer frame sequences (length 1..12 over every SType 0..255, PType, body, arbitrary ids/status bytes; active and passive, validation on/off, host/equipment, coalesced or per-frame writes, supervisor-step delays, second TCP connections) each played against a fresh real connection; the exact FIFO outbound frame list fenced by a Linktest barrier, State() and handler deliveries are compared with an independent E37 responder state machine. Race build." + HELD,
+   text="1600 (quick) / 24k (thorough) peer frame sequences (length 1..12 over every SType 0..255, PType, body, arbitrary ids/status bytes; active and passive, validation on/off, host/equipment, coalesced or per-frame writes, supervisor-step delays, second TCP connections, frames pipelined behind a session-ending Separate.req) each played against a fresh real connection; the exact FIFO outbound frame list fenced by a Linktest barrier, State() and handler deliveries are compared with an independent E37 responder state machine. Race build." + HELD,
    note="Trusts the responder table in c08Model (from the property text / E37). Two scheduling-dependent answers are accepted either way and documented (duplicate Select.rsp racing transaction close; S9F1 gated at write time).",
    technique="reference-model monitor: independent E37 responder FSM vs barrier-fenced outbound frame log of a real connection"),
  "C09": dict(level=F,
@@ -40,7 +40,7 @@ claimed = {
    note="The hsmsss phase carries the generation-tag oracle; the SECS-I phase covers only the parked-waiter release (SECS-I line faults are C17/C18). The drop instant relative to each send is sampled, not enumerated.",
    technique="generation-tagged token monitor over per-generation peer logs under the race detector with delay injection"),
  "C10": dict(level=E,
-   text="360 (quick) / 4000 (thorough) hsmsss lifecycle programs plus 96 / 2000 SECS-I programs against a raw TCP peer , a refused-Open-while-connect-pending scenario and Close on a socket whose writes block (write timeout disabled / 30 s / 200 ms x idle / sender blocked): 2..5 goroutines of Open/Close/send/UpdateConfig operations concurrent with a hostile peer script (serve, connect-only, drop, reset, stall, refuse, connect inside Close through gated Accept / delayed dial), then Close twice and leak meters (goroutine dump filtered to library frames, Close() on every harness-owned socket/listener, /proc fd count, no dial/listen after Close), double-Open guard, reopen + round trip. Race build; a hang is caught by the shard watchdog with a goroutine dump." + HELD,
+   text="360 (quick) / 4000 (thorough) hsmsss lifecycle programs plus 96 / 2000 SECS-I programs against a raw TCP peer , a refused-Open-while-connect-pending scenario , Close on a socket whose writes block (write timeout disabled / 30 s / 200 ms x idle / sender blocked) and Close while a dial is in flight with nothing coming back (both transports, cold open and reconnect): 2..5 goroutines of Open/Close/send/UpdateConfig operations concurrent with a hostile peer script (serve, connect-only, drop, reset, stall, refuse, connect inside Close through gated Accept / delayed dial), then Close twice and leak meters (goroutine dump filtered to library frames, Close() on every harness-owned socket/listener, /proc fd count, no dial/listen after Close), double-Open guard, reopen + round trip. Race build; a hang is caught by the shard watchdog with a goroutine dump." + HELD,
    note="hsmsss and secs1 transports; data handlers always return (the property's premise): immediately, after 5-80 ms, or after replying and sending from inside the handler. Close latency bound is close timeout + 5 s. ErrCloseTimeout as a return value is counted, not judged.",
    technique="randomized lifecycle programs with leak meters (goroutines, sockets, fds), latency bound and race detector"),
  "C20": dict(level=E,
@@ -52,7 +52,7 @@ claimed = {
    note="Trusts harness/ref/e37 and ref/e5 as the reading of E37/E5. Known finding: a valid message whose frame exceeds 2^24-1 bytes cannot be decoded by the library itself (documented limitation M6) - reported as KNOWN-FINDING.",
    technique="differential runtime monitor: independent E37 frame model vs constructors/ToBytes/decoders; socket-byte capture by a raw peer vs ToBytes"),
  "C04": dict(level=E,
-   text="Decode half: ~390k (quick) / 6.8M (thorough) byte strings to the three frame decode entry points (length-field x size x PType x all 256 STypes x 14 body classes, truncations, mutations, 16 MiB cap-boundary inputs) judged by the reference acceptor; lazy body decode shared across holders incl. barrier-released concurrent first calls under the race detector. Stream half: a byte-level peer feeds a real connection with valid streams cut at every position of the first 14 bytes, random k-way splits and 1-byte dribble, idle gaps of 4xT8, in-frame stalls of 6xT8 at 10 offsets, slow-but-steady delivery, 8 adversarial length fields with an allocation meter, and frames whose length field is cap-1 and exactly cap on a live link." + HELD,
+   text="Decode half: ~390k (quick) / 6.8M (thorough) byte strings to the three frame decode entry points (length-field x size x PType x all 256 STypes x 14 body classes, truncations, mutations, 16 MiB cap-boundary inputs) judged by the reference acceptor; lazy body decode shared across holders incl. barrier-released concurrent first calls under the race detector. Stream half: a byte-level peer feeds a real connection with valid streams cut at every position of the first 14 bytes, random k-way splits and 1-byte dribble, idle gaps of 4xT8, in-frame stalls of 6xT8 at 10 offsets (also with local writes going out while the receiver sits in the stalled frame), slow-but-steady delivery, 8 adversarial length fields with an allocation meter, and frames whose length field is cap-1 and exactly cap on a live link." + HELD,
    note="Timing clauses decided one-sidedly: idle gaps and stalls are many multiples of T8; 'slow but steady' and segmentation cases carry a measured max-gap premise and are discarded when the harness itself stalled.",
    technique="differential runtime monitor (reference frame acceptor) + segmenting/stalling raw peer with delivery oracle and allocation meter; race detector"),
  "C11": dict(level=F,
@@ -60,7 +60,7 @@ claimed = {
    note="'Eventually' is decided as bounded progress (6 opportunities). hsmsss transport; SECS-I line cuts are exercised by C18's middlebox, not here.",
    technique="fault enumeration by a byte-exact cutting/stalling peer + hook-reported back-off delays vs reference sequence"),
  "C12": dict(level=E,
-   text="17k (quick) / 330k (thorough) snapshot-mutate-resnapshot cases over 11 provenances (constructed, decoded by every copying/owning entry point, re-stamped, derived, control messages): every public accessor/serializer is observed, every slice passed in and every slice handed out (up to capacity) is scribbled on, and the object must still equal an untouched twin; a race phase releases 16 first-call readers by a barrier while a 17th goroutine mutates inputs/outputs (race detector = aliasing witness; shared decode identity checked)." + HELD,
+   text="17k (quick) / 330k (thorough) snapshot-mutate-resnapshot cases over 11 provenances (constructed, decoded by every copying/owning entry point, re-stamped, derived, control messages): every public accessor/serializer is observed, every slice passed in and every slice handed out (up to capacity) is scribbled on, and the object must still equal an untouched twin; a race phase releases 16 first-call readers by a barrier while a 17th goroutine mutates inputs/outputs (every second case cold: nothing is called on the object before the barrier) (race detector = aliasing witness; shared decode identity checked)." + HELD,
    note="Encode-once of a constructed body has no API-visible identity; only its consequences (identical bytes, no race report) are judged. Documented ownership transfer (DecodeOwned*) is exempt from input-mutation checks.",
    technique="snapshot/mutate/compare monitor against a pristine twin + race detector under barrier-released concurrent readers"),
  "C13": dict(level=E,
@@ -88,7 +88,7 @@ claimed = {
    note="Two genuine defects found: a block ACKed during link teardown whose message was then dropped is repaired (fix: commit); stale control characters consumed as handshake answers after a late grant remains a known finding (not a small repair). Overlaps of simultaneous sends are sampled; liveness is bounded (45 s send watchdog).",
    technique="fault-injecting middlebox between two real endpoints + offline exactly-once/order/retry-bound checker over the recorded line history"),
  "C19": dict(level=E,
-   text="Pure half: the two linktest decision functions (verif export) vs a reference written from the documented rules, exhaustive over a small ordered domain, and the whole failure-accounting loop folded over ALL ~300k (quick) / ~19M (thorough) observation histories of length <=6/8 x threshold 1..4 x suppression on/off, plus two reducer-independent invariants. E2E half: scripted peers (silent, answering, alive-but-not-answering with suppression on/off, chatty, withheld reply, silent peer while the local side keeps sending, life shown by a frame whose inline handler outlasts T6, life shown by frames the local side answers) on real connections; probe counts seen by the peer, still-connected checks, sound lower bound on the drop time, ControlMetrics vs peer counts." + HELD,
+   text="Pure half: the two linktest decision functions (verif export) vs a reference written from the documented rules, exhaustive over a small ordered domain, and the whole failure-accounting loop folded over ALL ~300k (quick) / ~19M (thorough) observation histories of length <=6/8 x threshold 1..4 x suppression on/off, plus two reducer-independent invariants. E2E half: scripted peers (silent, answering, alive-but-not-answering with suppression on/off, chatty, withheld reply, silent peer while the local side keeps sending, life shown by a frame whose inline handler outlasts T6, life shown by frames the local side answers, a dead peer right after a slow transaction with an upper bound on the drop time) on real connections; probe counts seen by the peer, still-connected checks, sound lower bound on the drop time, ControlMetrics vs peer counts." + HELD,
    note="E2E timing is decided one-sidedly (counts and sound lower bounds); the chatty scenario needs a measured premise and is discarded otherwise.",
    technique="exhaustive reference-fold comparison of the real reducer + scripted-peer scenario monitors under the race detector"),
 }
